@@ -295,6 +295,35 @@ pub fn convex_margin(poly: &[(f64, f64)], p: (f64, f64)) -> f64 {
   m
 }
 
+/// Gnomonic projection of p about c, computed from the coordinate *differences* (sin(dlat) + sin(lat0) cos(lat) (1 - cos dlon) for the
+/// numerator of y): relative accuracy ~1e-15 whatever the size of the figure, where unit vectors only give 1e-16 absolute.
+/// Great circles map to straight lines. None farther than ~87 deg from c.
+pub fn gnomonic(c: (f64, f64), p: (f64, f64)) -> Option<(f64, f64)> {
+  let mut dlon = p.0 - c.0; if dlon > PI { dlon -= TWO_PI; } else if dlon < -PI { dlon += TWO_PI; }
+  let dlat = p.1 - c.1;
+  let (s0, c0) = c.1.sin_cos(); let (s1, c1) = p.1.sin_cos();
+  let sh = (0.5 * dlon).sin(); let omc = 2.0 * sh * sh;
+  let d = s0 * s1 + c0 * c1 * (1.0 - omc);
+  if !(d > 0.05) { return None; }
+  Some((c1 * dlon.sin() / d, (dlat.sin() + s0 * c1 * omc) / d))
+}
+
+/// Signed margin of p with respect to a convex polygon inscribed in the small circle (centre c, radius r), any winding: > 0 inside.
+/// Outside the circle: -(distance - r). Inside: half-plane tests in the gnomonic chart about c (in chart units ~ rad near c).
+pub fn convex_margin_acc(poly: &[(f64, f64)], c: (f64, f64), r: f64, p: (f64, f64)) -> f64 {
+  let dc = dist(p, c);
+  if dc > r * (1.0 + 1e-6) + 1e-12 { return -(dc - r); }
+  let g: Vec<(f64, f64)> = match poly.iter().map(|q| gnomonic(c, *q)).collect::<Option<Vec<_>>>() { Some(g) => g, None => return convex_margin(poly, p) };
+  let pp = match gnomonic(c, p) { Some(x) => x, None => return convex_margin(poly, p) };
+  let n = g.len(); let (mut gx, mut gy) = (0.0, 0.0); for q in g.iter() { gx += q.0 / n as f64; gy += q.1 / n as f64; }
+  let mut m = f64::INFINITY;
+  for i in 0..n { let (a, b) = (g[i], g[(i + 1) % n]); let (ex, ey) = (b.0 - a.0, b.1 - a.1); let l = (ex * ex + ey * ey).sqrt(); if l == 0.0 { continue; }
+    let side = |q: (f64, f64)| (ex * (q.1 - a.1) - ey * (q.0 - a.0)) / l;
+    let s = if side((gx, gy)) >= 0.0 { 1.0 } else { -1.0 };
+    let d = s * side(pp); if d < m { m = d; } }
+  m
+}
+
 /// upper bound of the largest centre-to-vertex distance at a depth ("about one cell size"): 1.08/nside
 /// (exhaustively measured: D*nside -> 1.0686 at the worst cell)
 pub fn cell_radius_bound(depth: u8) -> f64 { 1.08 / nside(depth) as f64 }
